@@ -4,7 +4,12 @@ A case is plain data:
 
     {"prog":  {"funcs": [{"style": "gen"|"coro", "body": [stmt, ...]}, ...]},   # funcs[0] is the entry point
      "plans": [[prefired, ok, exc_kind, canceller], ...],   # plan of the j-th await *executed* (dynamic index)
-     "sched": [["next"] | ["fire", j] | ["cancel"], ...]}   # or "sweep": true (cancel at every suspension point)
+     "sched": [["next"] | ["fire", j] | ["cancel"] | ["late"], ...],   # or "sweep": true (cancel at every suspension point)
+     "debug": bool}                                         # run with defer.setDebugging(True)
+
+    ["late"] / ["fire", j] on a Deferred that was cancelled and has no canceller: its producer fires it anyway,
+    later.  Deferred documents that exactly one such late result is accepted and discarded; the call must
+    not raise and nothing the function or the returned Deferred shows may change.
 
     stmt := ["aw"]                      x = await/yield a Deferred      -> trace ("got", site, x)
           | ["pv"]                      x = yield <plain value>         -> trace ("plain", site, x)   (generators; a plain assignment elsewhere)
@@ -39,7 +44,7 @@ META = dict(
     property="C05",
     level="exploration",
     technique="random structured programs emitted as real generator/coroutine source and as a synchronous twin; model-based lock-step comparison of traces after every fire/cancel step, cancellation swept over every suspension point",
-    level_text="Hypothesis generates programs (sequence, await, plain yield, try/except with generated catch sets, try/finally, return in finally, bounded loops with break/continue, raise, nested inlineCallbacks / async def / ensureDeferred calls) and schedules (fire the awaited Deferred, fire any other Deferred early, cancel the returned Deferred). After every step the trace seen inside the real function, the state and result of the returned Deferred, and the cancel()/canceller counts of every awaited Deferred are compared with a synchronous run of the same program. A second pass cancels at each suspension point in turn. Sampled, not exhaustive.",
+    level_text="Hypothesis generates programs (sequence, await, plain yield, try/except with generated catch sets, try/finally, return in finally, bounded loops with break/continue, raise, nested inlineCallbacks / async def / ensureDeferred calls) and schedules (fire the awaited Deferred, fire any other Deferred early, cancel the returned Deferred, fire a cancelled canceller-less Deferred late); a quarter to a third of the cases run with Deferred debugging switched on. After every step the trace seen inside the real function, the state and result of the returned Deferred, and the cancel()/canceller counts of every awaited Deferred are compared with a synchronous run of the same program. A second pass cancels at each suspension point in turn. Sampled, not exhaustive.",
     level_note="Trusted: the synchronous twin emitted from the same template (Python's own sequential semantics are the oracle), CPython's generator/coroutine machinery. Nested functions are always awaited at once (no concurrently running children); returnValue(), bare except / except BaseException, and Deferreds awaited twice are outside the generated language.",
     design_ref="§5 C05",
     rule="case = (program, per-await plans, schedule). non-trivial = the run suspended at >= 2 distinct awaits and (a cancel arrived while the function was suspended, or an exception crossed a nested call boundary); distinct by the whole case.",
@@ -293,6 +298,40 @@ def model_run(prog, plans, decided):
 # one lock-step execution
 
 def _execute(ctx, case, prog, plans, sched, drain=True):
+    from twisted.internet import defer as _defer
+    if case.get("debug"):
+        # Deferred debugging: a rarely used configuration that must not change behaviour
+        _defer.setDebugging(True)
+        try:
+            return _execute_inner(ctx, case, prog, plans, sched, drain)
+        finally:
+            _defer.setDebugging(False)
+    return _execute_inner(ctx, case, prog, plans, sched, drain)
+
+
+_HOOKED = []
+
+
+def _quiet_abandoned_generators():
+    """When a case ends in a violation the program's generators / coroutines stay
+    suspended; at collection time Python throws GeneratorExit into them and a
+    generated `return` in `finally` answers with "ignored GeneratorExit" on
+    stderr.  That is noise from the abandoned test program, not a finding."""
+    import sys
+    if _HOOKED:
+        return
+    prev = sys.unraisablehook
+
+    def hook(u):
+        if isinstance(u.exc_value, RuntimeError) and "ignored GeneratorExit" in str(u.exc_value):
+            return
+        prev(u)
+    sys.unraisablehook = hook
+    _HOOKED.append(prev)
+
+
+def _execute_inner(ctx, case, prog, plans, sched, drain=True):
+    _quiet_abandoned_generators()
     from twisted.internet.defer import (inlineCallbacks, ensureDeferred, CancelledError,
                                         Deferred)
     from twisted.python.failure import Failure
@@ -351,7 +390,8 @@ def _execute(ctx, case, prog, plans, sched, drain=True):
     ncancel_model = {}
     canc_model = {}
     blocked_at = set()
-    info = dict(cancel_blocked=0, crossed=0, steps=0, early_fires=0)
+    info = dict(cancel_blocked=0, crossed=0, steps=0, early_fires=0, late_fires=0)
+    late_ok = []      # awaits cancelled while having no canceller: one late result each is still owed
 
     def compare(step):
         mtrace, status, crossed = model_run(prog, plans, decided)
@@ -439,8 +479,24 @@ def _execute(ctx, case, prog, plans, sched, drain=True):
                     canc_model[j] = canc_model.get(j, 0) + 1
                 decided[j] = _cancel_outcome(plans, j)
                 info["cancel_blocked"] += 1
+                if _plan(plans, j)["canc"] == "none":
+                    late_ok.append(j)
             top.cancel()
             status = compare("cancel")
+            return
+        if op[0] == "late" or (op[0] == "fire" and int(op[1]) in late_ok):
+            if not late_ok:
+                return
+            j = late_ok[0] if op[0] == "late" else int(op[1])
+            late_ok.remove(j)
+            info["late_fires"] += 1
+            from twisted.internet.defer import AlreadyCalledError
+            try:
+                fire_real(j)
+            except AlreadyCalledError as e:
+                ctx.violation("late-result-after-cancel-rejected", case,
+                              f"await #{j} has no canceller and was cancelled; firing it later (once) must be accepted silently, but raised AlreadyCalledError {str(e)[:80]!r} (debug={bool(case.get('debug'))})")
+            status = compare(f"late-fire({j})")
             return
         if op[0] == "next":
             if status[0] != "blocked":
@@ -481,8 +537,9 @@ def run_case(ctx, case):
         points = min(info["steps"], 16)
         total = dict(info)
         for i in range(points):
-            inf = _execute(ctx, case, prog, plans, [["next"]] * i + [["cancel"]])
+            inf = _execute(ctx, case, prog, plans, [["next"]] * i + [["cancel"], ["late"]])
             total["cancel_blocked"] += inf["cancel_blocked"]
+            total["late_fires"] += inf["late_fires"]
             total["blocked_at"] = max(total["blocked_at"], inf["blocked_at"])
             total["crossed"] = max(total["crossed"], inf["crossed"])
         info = total
@@ -501,6 +558,12 @@ def run_case(ctx, case):
         ctx.count("cancels while suspended (total)", info["cancel_blocked"])
     if info["crossed"]:
         ctx.count("exception crossed a nested call")
+    if case.get("debug"):
+        ctx.count("Deferred debugging on")
+    if info["late_fires"]:
+        ctx.count("late result fired into a cancelled canceller-less Deferred")
+        if case.get("debug"):
+            ctx.count("late result after cancel, with Deferred debugging on")
     if info["early_fires"]:
         ctx.count("a Deferred fired before it was awaited")
     ctx.count("final=" + info["final"][0] + ("" if info["final"][0] != "exc" else ":" + info["final"][1]))
@@ -592,7 +655,7 @@ PLAN = st.tuples(
 
 OP = st.one_of(
     st.just(["next"]), st.just(["next"]), st.just(["next"]),
-    st.just(["cancel"]), st.just(["cancel"]),
+    st.just(["cancel"]), st.just(["cancel"]), st.just(["late"]),
     st.tuples(st.just("fire"), st.integers(0, 11)).map(list),
 )
 
@@ -601,14 +664,16 @@ OP = st.one_of(
 def cases(draw):
     return dict(prog=draw(programs()),
                 plans=draw(st.lists(PLAN, min_size=0, max_size=10)),
-                sched=draw(st.lists(OP, min_size=0, max_size=12)))
+                sched=draw(st.lists(OP, min_size=0, max_size=12)),
+                debug=draw(st.sampled_from([False, False, False, True])))
 
 
 @st.composite
 def sweep_cases(draw):
     return dict(prog=draw(programs()),
                 plans=draw(st.lists(PLAN, min_size=2, max_size=10)),
-                sweep=True)
+                sweep=True,
+                debug=draw(st.sampled_from([False, False, True])))
 
 
 def _shard(ctx, i):
